@@ -153,7 +153,23 @@ func (vc *VC) evalCall(st *State, call *ast.CallExpr) []Term {
 	// builtin
 	if id, ok := ast.Unparen(call.Fun).(*ast.Ident); ok {
 		if b, ok := info.Uses[id].(*types.Builtin); ok {
-			return vc.evalBuiltin(st, call, b.Name())
+			items := vc.anchored[call]
+			var pre *State
+			if len(items) > 0 {
+				pre = st.clone()
+				for _, it := range items {
+					if it.gu.When == "before" {
+						vc.applyAnchored(st, call, it, nil, pre)
+					}
+				}
+			}
+			rs := vc.evalBuiltin(st, call, b.Name())
+			for _, it := range items {
+				if it.gu.When == "after" {
+					vc.applyAnchored(st, call, it, rs, pre)
+				}
+			}
+			return rs
 		}
 	}
 	// immediately-invoked literal
@@ -822,12 +838,23 @@ func (vc *VC) bindAnchors(fi *FuncInfo, c *FuncContract) {
 	all = append(all, c.Asserts...)
 	counts := make([]int, len(all))
 	matched := make([]bool, len(all))
+	vc.anchoredNodes = map[ast.Node][]anchoredItem{}
 	ast.Inspect(fi.Decl.Body, func(n ast.Node) bool {
-		call, ok := n.(*ast.CallExpr)
-		if !ok {
+		var txt string
+		call, isCall := n.(*ast.CallExpr)
+		switch x := n.(type) {
+		case *ast.CallExpr:
+			txt = nodeText(vc.prog.Fset, x.Fun)
+		case *ast.UnaryExpr:
+			if x.Op != token.ARROW {
+				return true
+			}
+			txt = "recv:" + nodeText(vc.prog.Fset, x.X)
+		case *ast.SendStmt:
+			txt = "send:" + nodeText(vc.prog.Fset, x.Chan)
+		default:
 			return true
 		}
-		txt := nodeText(vc.prog.Fset, call.Fun)
 		for i, gu := range all {
 			if gu.Anchor == "exit" {
 				continue
@@ -836,7 +863,11 @@ func (vc *VC) bindAnchors(fi *FuncInfo, c *FuncContract) {
 				counts[i]++
 				if gu.Occ == 0 || gu.Occ == counts[i] {
 					matched[i] = true
-					vc.anchored[call] = append(vc.anchored[call], anchoredItem{gu, i < nUpd})
+					if isCall {
+						vc.anchored[call] = append(vc.anchored[call], anchoredItem{gu, i < nUpd})
+					} else {
+						vc.anchoredNodes[n] = append(vc.anchoredNodes[n], anchoredItem{gu, i < nUpd})
+					}
 				}
 			}
 		}
@@ -850,6 +881,9 @@ func (vc *VC) bindAnchors(fi *FuncInfo, c *FuncContract) {
 	for _, items := range vc.anchored {
 		sort.SliceStable(items, func(a, b int) bool { return items[a].gu.Seq < items[b].gu.Seq })
 	}
+	for _, items := range vc.anchoredNodes {
+		sort.SliceStable(items, func(a, b int) bool { return items[a].gu.Seq < items[b].gu.Seq })
+	}
 }
 
 func anchorMatch(anchor, txt string) bool {
@@ -860,15 +894,62 @@ func anchorMatch(anchor, txt string) bool {
 }
 
 func (vc *VC) applyAnchored(st *State, call *ast.CallExpr, it anchoredItem, results []Term, pre *State) {
+	vc.resultGoTypes = vc.resultTypes(call)
+	vc.applyAnchoredAt(st, call.Pos(), call.Args, it, results, pre)
+	vc.resultGoTypes = nil
+}
+
+// nodeAnchors runs the anchored items of a receive expression or send statement.
+func (vc *VC) nodeAnchors(st *State, n ast.Node, when string, results []Term, pre *State) {
+	vc.resultGoTypes = nil
+	switch x := n.(type) {
+	case *ast.SendStmt:
+		vc.resultGoTypes = []types.Type{vc.typeOf(x.Value)}
+	case *ast.UnaryExpr:
+		vc.resultGoTypes = []types.Type{vc.typeOf(x)}
+	}
+	defer func() { vc.resultGoTypes = nil }()
+	for _, it := range vc.anchoredNodes[n] {
+		if it.gu.When == when {
+			vc.applyAnchoredAt(st, n.Pos(), nil, it, results, pre)
+		}
+	}
+}
+
+func (vc *VC) applyAnchoredAt(st *State, pos token.Pos, callArgs []ast.Expr, it anchoredItem, results []Term, pre *State) {
 	names := map[string]Val{}
 	for i, r := range results {
-		names[fmt.Sprintf("result%d", i)] = Val{r, nil}
+		var gt types.Type
+		if vc.resultGoTypes != nil && i < len(vc.resultGoTypes) {
+			gt = vc.resultGoTypes[i]
+		}
+		names[fmt.Sprintf("result%d", i)] = Val{r, gt}
 		if i == 0 {
-			names["result"] = Val{r, nil}
+			names["result"] = Val{r, gt}
 		}
 	}
 	// call arguments are available as arg0.. (re-evaluated syntactically: pure arguments only)
-	env := &SpecEnv{vc: vc, st: st, old: vc.entryState(), pre: pre, names: names, pkg: vc.fn.Pkg.Types, scopePos: call.Pos(), useLocals: true, callArgs: call.Args}
+	env := &SpecEnv{vc: vc, st: st, old: vc.entryState(), pre: pre, names: names, pkg: vc.fn.Pkg.Types, scopePos: pos, useLocals: true, callArgs: callArgs}
+	if it.gu.Define {
+		// ghost define X :: P  —  X becomes an arbitrary value satisfying P (P may mention pre(X))
+		var srt string
+		if g, ok := vc.prog.DB.Ghosts[it.gu.Var]; ok {
+			srt = specSort(g.Type)
+		} else if vc.contract != nil {
+			for _, g := range vc.contract.GhostVars {
+				if g.Name == it.gu.Var {
+					srt = specSort(g.Type)
+				}
+			}
+		}
+		if srt == "" {
+			vc.fail("ghost define: unknown ghost %s", it.gu.Var)
+			return
+		}
+		vc.setGhost(st, it.gu.Var, vc.fresh("gdef$"+it.gu.Var, srt))
+		st.assume(vc.nameTerm("gdefine", vc.specEvalBool(env, it.gu.Expr)))
+		return
+	}
 	if it.gu.Assume {
 		st.assume(vc.nameTerm("siteassume", vc.specEvalBool(env, it.gu.Expr)))
 		vc.notes[fmt.Sprintf("call-site assumption [%s] at %s: %s", it.gu.Var, it.gu.Anchor, it.gu.Src)]++
@@ -885,7 +966,7 @@ func (vc *VC) applyAnchored(st *State, call *ast.CallExpr, it anchoredItem, resu
 	if n := vc.oblCount[name]; n > 1 {
 		name += fmt.Sprintf("#%d", n)
 	}
-	vc.assert(st, name, "assert", call.Pos(), it.gu.Src, g)
+	vc.assert(st, name, "assert", pos, it.gu.Src, g)
 	st.assume(g)
 }
 
@@ -1090,6 +1171,7 @@ func (vc *VC) callEffects(call *ast.CallExpr, ef *effects) {
 			}
 		}
 	}
+	ef.calls = true // a non-builtin call: values it returns may be objects allocated by the callee
 	fn := staticCallee(info, call)
 	if fn == nil {
 		ef.heapAll = true
